@@ -5,8 +5,10 @@ P="$1"; shift
 cd /repo && git status --short | grep -v '^??' | grep . && { echo "repo dirty"; exit 2; }
 git -C /repo apply "$P" || { echo "patch does not apply"; exit 2; }
 for id in "$@"; do
-  /verif/run.sh "$id" quick 2>&1 | grep -E "^VIOLATION|^KNOWN|clause=|quick:|HARNESS" | cut -c1-220
-  echo "exit[$id]=${PIPESTATUS[0]}"
+  /verif/run.sh "$id" quick > /tmp/try_seed.out 2>&1; rc=$?
+  grep -E "clause=" /tmp/try_seed.out | cut -c1-200 | head -4
+  grep -E "quick:|HARNESS" /tmp/try_seed.out
+  echo "exit[$id]=$rc"
 done
 git -C /repo checkout -- .
 git -C /repo status --short | grep -v '^??'
